@@ -6,10 +6,10 @@
    (One module per layer only because the layers' models reuse constructor names.) *)
 From Coq Require Import NArith List Bool Arith.
 Import ListNotations.
-From Rodbus Require Base.Outcome Base.Frame Gen.Consts Gen.RtuLengths Model.Buffer Model.Mbap Model.Rtu Model.Reader Proofs.BufferProofs Proofs.MbapProofs Proofs.RtuProofs Proofs.ReaderGeneric Proofs.C05Proofs Base.ClientTypes Model.ClientRequest Proofs.ClientReplyProofs Proofs.ClientCodecProofs Base.ServerTypes Model.Server Proofs.ServerProofs Proofs.ServerTheorems Model.Retry Spec.Lifecycle Spec.ClientSpec Gen.SessionErrors Model.ClientTask Proofs.ClientBase Proofs.C13Proofs.
+From Rodbus Require Spec.Framing Base.Outcome Base.Frame Gen.Consts Gen.RtuLengths Model.Buffer Model.Mbap Model.Rtu Model.Reader Proofs.BufferProofs Proofs.MbapProofs Proofs.RtuProofs Proofs.ReaderGeneric Proofs.C05Proofs Base.ClientTypes Model.ClientRequest Proofs.ClientReplyProofs Proofs.ClientCodecProofs Base.ServerTypes Model.Server Proofs.ServerProofs Proofs.ServerTheorems Model.Retry Spec.Lifecycle Spec.ClientSpec Gen.SessionErrors Model.ClientTask Proofs.ClientBase Proofs.C13Proofs.
 
 Module Framing.
-Import Base.Outcome Base.Frame Gen.Consts Gen.RtuLengths Model.Buffer Model.Mbap Model.Rtu Model.Reader Proofs.BufferProofs Proofs.MbapProofs Proofs.RtuProofs Proofs.ReaderGeneric Proofs.C05Proofs.
+Import Base.Outcome Base.Frame Gen.Consts Gen.RtuLengths Spec.Framing Model.Buffer Model.Mbap Model.Rtu Model.Reader Proofs.BufferProofs Proofs.MbapProofs Proofs.RtuProofs Proofs.ReaderGeneric Proofs.C05Proofs.
 
 (* ---- receive buffer: every cursor operation on a well-formed ReadBuffer returns Ok or Err ---- *)
 Theorem C07_buffer_read_no_panic : forall n b, wf b -> snd (buf_read n b) <> Panic.
